@@ -477,6 +477,30 @@ func genGuardSkel(s *src) string {
 		return ok && len(a.Lhs) == 1 && s.text(a.Lhs[0]) == "bufSize"
 	})))
 
+	// 5c. the archive writer: the conditions in front of the write to the entry's file (a directory entry
+	//     has none), and the line splitters: the guard on the index of the colon before line[1:idx]
+	b.WriteString(c12Hits("archive_file_write", c12Dominators(s, "archiveFileWriter.Write", func(n ast.Node) bool {
+		c, ok := c12CallNamed(n, "Write")
+		return ok && s.text(c.Fun) == "f.file.Write"
+	})))
+	var splits []c12Hit
+	for _, fn := range []string{"decodeRelayBufferString", "trzszTransfer.recvCheck", "trzszTransfer.recvCheckV2"} {
+		for _, h := range c12Dominators(s, fn, func(n ast.Node) bool {
+			sl, ok := n.(*ast.SliceExpr)
+			return ok && s.text(sl) == "line[1:idx]"
+		}) {
+			var keep []string
+			for _, cnd := range h.conds {
+				if strings.Contains(cnd, "idx") {
+					keep = append(keep, cnd)
+				}
+			}
+			h.conds = keep
+			splits = append(splits, h)
+		}
+	}
+	b.WriteString(c12Hits("line_split_sites", splits))
+
 	// 6. every allocation / growth / repeat in the package whose size is not a constant and not the
 	//    length of data already held: a new flow into an allocation shows up here
 	type site struct{ fn, expr string }
